@@ -45,17 +45,31 @@ Ctx(c, x, v) ==
     [] c = 5 -> [n |-> Arr(<<x>>, <<>>), d |-> AV(<<x.good, x.good, v>>), path |-> <<3>>]
 Contexts == 0..4
 
-Cases == {[c |-> c, l |-> l] : c \in Contexts, l \in Leaves}
+\* additionalProperties: a key the schema does not name is the offending thing itself under "false" (as without the rule),
+\* its value is under a kind / type name
+BV(b) == [t |-> "bool", bv |-> b]
+IdV(x) == [t |-> "id", s |-> x]
+APF == R("additionalProperties", BV(FALSE))
+APS == R("additionalProperties", IdV("string"))
+Extras == {
+  [n |-> Obj(<<P(Ka, One)>>, <<APF>>), bad |-> OV(<<KV(Ka, NumD(N1)), KV(Kb, NumD(N2))>>), good |-> OV(<<KV(Ka, NumD(N1))>>), path |-> <<2>>, at |-> "key"],
+  [n |-> Obj(<<P(Ka, Obj(<<P(Kc, One)>>, <<APF>>))>>, <<>>), bad |-> OV(<<KV(Ka, OV(<<KV(Kc, NumD(N1)), KV(Kd, [t |-> "bool", bv |-> TRUE])>>))>>),
+     good |-> OV(<<KV(Ka, OV(<<KV(Kc, NumD(N1))>>))>>), path |-> <<1, 2>>, at |-> "key"],
+  [n |-> Arr(<<Obj(<<P(Ka, One)>>, <<APF>>)>>, <<>>), bad |-> AV(<<OV(<<KV(Ka, NumD(N1))>>), OV(<<KV(Kx, StrD(Sa)), KV(Ka, NumD(N1))>>)>>),
+     good |-> AV(<<OV(<<KV(Ka, NumD(N1))>>)>>), path |-> <<2, 1>>, at |-> "key"],
+  [n |-> Obj(<<P(Ka, One)>>, <<APS>>), bad |-> OV(<<KV(Ka, NumD(N1)), KV(Kb, NumD(N2))>>), good |-> OV(<<KV(Ka, NumD(N1)), KV(Kb, StrD(Sa))>>), path |-> <<2>>, at |-> "value"] }
+Cases == {[n |-> Ctx(c, l.n, l.bad).n, bad |-> Ctx(c, l.n, l.bad).d, good |-> Ctx(c, l.n, l.good).d, path |-> Ctx(c, l.n, l.bad).path, at |-> "value"] : c \in Contexts, l \in Leaves}
+         \cup Extras
 CaseSeq == SetToSeq(Cases)
-BadDoc(k) == Ctx(k.c, k.l.n, k.l.bad).d
-GoodDoc(k) == Ctx(k.c, k.l.n, k.l.good).d
-Schema(k) == Ctx(k.c, k.l.n, k.l.bad).n
+BadDoc(k) == k.bad
+GoodDoc(k) == k.good
+Schema(k) == k.n
 Env0 == [types |-> <<>>, enums |-> <<>>]
 
 ASSUME \A i \in DOMAIN CaseSeq : PrintT("@@DOC " \o ToJson([i |-> i, v |-> BadDoc(CaseSeq[i])]))
 ASSUME \A i \in DOMAIN CaseSeq :
          PrintT("@@CASE " \o ToJson([schema |-> Schema(CaseSeq[i]), opt |-> FALSE,
-                                     viol |-> [j \in DOMAIN CaseSeq |-> IF j = i THEN [path |-> Ctx(CaseSeq[i].c, CaseSeq[i].l.n, CaseSeq[i].l.bad).path, at |-> "value"] ELSE <<>>]]))
+                                     viol |-> [j \in DOMAIN CaseSeq |-> IF j = i THEN [path |-> CaseSeq[i].path, at |-> CaseSeq[i].at] ELSE <<>>]]))
 VARIABLE x
 Init == x = 0
 Next == UNCHANGED x
